@@ -178,6 +178,8 @@ def _run(case, ctx, d, which):
     if case['seed'][-1] % 10 == 3:
         os.makedirs(out)
         out = os.path.join(out, 'alf')
+    if case['seed'][-1] % 10 == 7 and case.get('source') != 'merged':
+        out = os.path.join(d, 'SRC')          # another directory whose name differs from the source's ('src') by letter case only
     if case['seed'][-1] % 2:
         out = Path(out)
     curated = spec.curated
@@ -213,8 +215,9 @@ def _run(case, ctx, d, which):
                          os.path.join(src, '.')]
             os.makedirs(os.path.join(d, 'x'), exist_ok=True)
             target = spellings[case['seed'][-1] % len(spellings)]
-            for tgt in (src, target):
-                rr = call(c.convert, tgt, label=label, ampfactor=factor)
+            for n_t, tgt in enumerate((src, target)):
+                # (force=True allows overwriting an earlier export; it does not make the source directory a valid target)
+                rr = call(c.convert, tgt, label=label, ampfactor=factor, force=bool((case['seed'][-1] + n_t) % 2))
                 if rr.ok or snapshot(src) != b0:
                     ctx.violation('same_directory_accepted', desc,
                                   'convert() into the source directory spelled %r was %s' % (
